@@ -28,6 +28,7 @@ structure St where
   info : List (Nat × Nat × Nat) := []   -- module ↦ ([[DFSIndex]], [[DFSAncestorIndex]])
   stack : List Nat := []         -- the spec's `stack`, most recent first
   idx : Nat := 0
+  path : List Nat := []          -- GHOST (read by no decision): the calls of InnerModuleEvaluation in progress, innermost first
   deriving Repr
 
 def St.init : St := { status := [], trace := [], error := none }
@@ -53,7 +54,7 @@ def popThrough (s : St) (m : Nat) : St :=
 /-- steps 5-9 of InnerModuleEvaluation: the module becomes `evaluating`, gets its DFS indices, goes on the stack -/
 def enter (s : St) (m : Nat) : St :=
   let s0 := setStatus s m .evaluating
-  { s0 with info := (m, s.idx, s.idx) :: s0.info, stack := m :: s0.stack, idx := s.idx + 1 }
+  { s0 with info := (m, s.idx, s.idx) :: s0.info, stack := m :: s0.stack, idx := s.idx + 1, path := m :: s0.path }
 
 /-- step 11.c.iv: a requested module that is still being evaluated is on the stack, part of the same cycle -/
 def noteCycle (a : St) (m d : Nat) : St :=
@@ -73,7 +74,7 @@ def visit (g : Graph) : Nat → St → Nat → St
         match s2.error with
         | some _ => s2                                      -- the modules on the stack are marked by Evaluate
         | none =>
-          let s3 := { s2 with trace := s2.trace ++ [m] }
+          let s3 := { s2 with trace := s2.trace ++ [m], path := s2.path.drop 1 }
           if g.throwsAt m then { s3 with error := some m }
           else if (infoOf s3 m).2 == (infoOf s3 m).1 then popThrough s3 m else s3
 
@@ -81,7 +82,7 @@ def visit (g : Graph) : Nat → St → Nat → St
     On an error every module still on the stack — the ancestors of the failing module and the members of unfinished
     cycles, including those whose body already ran — records it. -/
 def evaluate (g : Graph) (s : St) (root : Nat) : St :=
-  let s' := visit g (g.deps.length + 2) { s with error := none, stack := [], idx := 0 } root
+  let s' := visit g (g.deps.length + 2) { s with error := none, stack := [], idx := 0, path := [] } root
   match s'.error with
   | some e => { markAll s' s'.stack (.failed e) with stack := [] }
   | none => s'
